@@ -10,6 +10,9 @@
 //!   4 greedy scoring walk                fuzzy_indices_greedy([z, c, F], [z, n]) (normalize + calculate_score)
 //!   5 substring scan                     substring_match([F, c, z], [n, z])     (substring_match_non_ascii)
 //! where F is a filler that never normalises to anything else.  A probe "agrees" iff it reports the match.
+//! Probes 6-10 are the same five shapes on byte (ASCII-representation) haystacks and needles, for ASCII c
+//! (the AsciiChar routines); probes 11-15 put a byte needle against the code-point haystack whenever the
+//! normal form is ASCII (the mixed-representation comparisons).
 use crate::mtrace::{make_config, norm_char, Cfg};
 use nucleo_matcher::{Matcher, Utf32Str};
 use std::io::Write;
@@ -18,6 +21,32 @@ const FILLER: char = '\u{1}';
 
 pub fn probe(m: &mut Matcher, k: u32, c: char, n: char) -> bool {
     let z = if n == '~' { '^' } else { '~' };
+    if k > 5 {
+        // byte representations: haystack as bytes for 6-10, needle as bytes for 6-15
+        let shape = (k - 1) % 5 + 1;
+        let (hs, ns): (Vec<char>, Vec<char>) = match shape {
+            1 => (vec![c], vec![n]),
+            2 => (vec![c, FILLER], vec![n]),
+            3 => (vec![c, FILLER, z], vec![n, z]),
+            4 => (vec![z, c, FILLER], vec![z, n]),
+            _ => (vec![FILLER, c, z], vec![n, z]),
+        };
+        let hstr: String = hs.iter().collect();
+        let nstr: String = ns.iter().collect();
+        let hay = if k <= 10 { Utf32Str::Ascii(hstr.as_bytes()) } else { Utf32Str::Unicode(&hs) };
+        let needle = Utf32Str::Ascii(nstr.as_bytes());
+        return match shape {
+            1 => m.exact_match(hay, needle).is_some(),
+            2 => m.fuzzy_match(hay, needle).map_or(false, |s| s >= 16),
+            3 => m.fuzzy_match(hay, needle).is_some(),
+            4 => {
+                let mut idx = Vec::new();
+                let r = m.fuzzy_indices_greedy(hay, needle, &mut idx);
+                r.is_some() && idx == [0, 1]
+            }
+            _ => m.substring_match(hay, needle).is_some(),
+        };
+    }
     match k {
         1 => m.exact_match(Utf32Str::Unicode(&[c]), Utf32Str::Unicode(&[n])).is_some(),
         2 => m
@@ -79,7 +108,10 @@ pub fn run(out: &str) {
                 writeln!(f, "{{\"ev\":\"X\",\"ic\":{},\"nz\":{},\"c\":{},\"n\":{},\"nn\":{}}}", cfg.ic, cfg.nz, cp, n as u32, norm_char(n, *cfg) as u32).unwrap();
                 continue;
             }
-            for k in 1..=5 {
+            for k in 1..=15 {
+                if (k > 5 && !n.is_ascii()) || ((6..=10).contains(&k) && !c.is_ascii()) {
+                    continue;
+                }
                 probes += 1;
                 let ok = std::panic::catch_unwind(std::panic::AssertUnwindSafe(|| probe(m, k, c, n))).unwrap_or(false);
                 if !ok {
